@@ -104,6 +104,8 @@ def check_case(ctx, pm, D, order_seed, tmpdir):
         if onfile != t1:
             problems.append("dump(path) bytes differ from dumps()")
         problems.extend(F.diff_cells(exp_cells, cells3))
+        from rv import formats as _formats
+        problems.extend(_formats.entry_point_problems(_formats.modules(), "images", im, t1, tmpdir))
         if comp3 != exp_comp:
             problems.append("compose section differs after load(path)")
     except Exception as e:
